@@ -81,8 +81,11 @@ def numeric(ctx):
         for N in [0, Lv // 2, Lv // 2 + 1, Lv - 1, Lv, Lv + 1, rng.randint(0, 3 * Lv + 5)] + ([(Sv + 1) // 2 - 1, (Sv + 1) // 2, Sv + Lv] if wide else []):
             for dt, tol in ((np.float64, 2e-5), (np.float32, 2e-3)):  # module buffers (window, filters) are float32
                 # loud, quiet (mean square below LOG_FLOOR_VALUE) and silent signals: both sides of the log floor
-                level = rng.choice(["loud", "loud", "quiet", "silence"])
-                x = (nprng.randn(N) * {"loud": 1.0, "quiet": 1e-3, "silence": 0.0}[level]).astype(dt)
+                level = rng.choice(["loud", "loud", "quiet", "silence", "loud-then-quiet"])
+                x = nprng.randn(N) * {"loud": 1.0, "quiet": 1e-3, "silence": 0.0, "loud-then-quiet": 1e-2}[level]
+                if level == "loud-then-quiet":
+                    x[: (2 * N) // 3] *= 1e6  # 16-bit-scale lead, quiet tail: the tail's energy is still that of its own samples
+                x = x.astype(dt)
                 ref = c.compute_full(x)
                 desc = dict(bank=name, rate=rate, L=Lv, S=Sv, D=c._dft_size, N=N, level=level, dtype=str(np.dtype(dt)), **{k: str(v) for k, v in kw.items()})
                 ctx.count("level:" + level)
@@ -163,6 +166,29 @@ def numeric(ctx):
                 bad.append(dict(what="PyTorchSIFrameComputer differs from SIFrameComputer.compute_full", N=len(x), dtype=str(np.dtype(dt)),
                                 max_abs_diff=(float(np.max(np.abs(ra - rb))) if ra.shape == rb.shape and ra.size else None),
                                 result_dtype=str(rb.dtype), expected_dtype=str(ra.dtype)))
+    # pre-emphasis module in every compiled form, on a signal whose dtype differs from the one it was traced with:
+    # the result keeps the SIGNAL's dtype and equals Preemphasize.apply in that precision
+    for coeff in (0.97, 0.5):
+        pe = pre.Preemphasize(coeff)
+        forms = [("eager", pst.PyTorchPreemphasize.from_preemphasize(pe)),
+                 ("scripted", torch.jit.script(pst.PyTorchPreemphasize.from_preemphasize(pe)))]
+        for exdt in (torch.float32, torch.float64):
+            try:
+                forms.append(("traced with a %s example" % str(exdt).replace("torch.", ""),
+                              torch.jit.trace(pst.PyTorchPreemphasize.from_preemphasize(pe), torch.zeros(5, dtype=exdt))))
+            except Exception:  # noqa: BLE001 - tracing not supported: nothing to compare
+                pass
+        for dt in (np.float64, np.float32):
+            x = (nprng.randn(50) * 100.0).astype(dt)
+            ref = pe.apply(x)
+            for form, mod in forms:
+                got = mod(torch.from_numpy(x.copy())).detach().numpy()
+                ctx.count("preemph-forms")
+                tol = 1e-12 if dt == np.float64 else 1e-5
+                if got.dtype != ref.dtype or got.shape != ref.shape or not np.allclose(got, ref, rtol=tol, atol=tol * 100):
+                    bad.append(dict(what="PyTorchPreemphasize (%s) differs from Preemphasize.apply on a %s signal" % (form, np.dtype(dt).name),
+                                    coeff=coeff, result_dtype=str(got.dtype), expected_dtype=str(ref.dtype),
+                                    max_abs_diff=(float(np.max(np.abs(got.astype(np.float64) - ref))) if got.shape == ref.shape else None)))
     # dither: reproducible under manual_seed, zero mean, requested std
     # in every module state a front end is used in: fresh (training mode), after .eval(), as a child of a
     # container put in evaluation mode, back in training mode, TorchScript-compiled (both modes)
